@@ -359,14 +359,60 @@ pub fn method_oracle(rep: &mut CaseReport, c2s: &[u8], hist: &History, frame_max
 }
 
 /// C02: every publish appears as method + one header + body frames, intact, bounded, contiguous, in order.
-pub fn publish_oracle(rep: &mut CaseReport, c2s: &[u8], hist: &History, frame_max: usize) {
-    let per = match decode_c2s(c2s) {
-        Ok(p) => p,
-        Err(e) => {
-            rep.inconclusive = Some(format!("stream not decodable ({}): C01's concern", e));
-            return;
+/// Frames of the longest decodable prefix of the stream, plus the reason decoding stopped (if it did).
+pub fn decode_c2s_lenient(c2s: &[u8]) -> (BTreeMap<u16, Vec<(usize, usize, AMQPFrame)>>, Option<String>) {
+    let mut per: BTreeMap<u16, Vec<(usize, usize, AMQPFrame)>> = BTreeMap::new();
+    let mut end = c2s.len();
+    let mut why = None;
+    // shrink to the longest prefix that splits into frames
+    let frames = loop {
+        match wire::split_stream(&c2s[..end], false) {
+            Ok((_, frames, _)) => break frames,
+            Err(e) => {
+                let off = match &e {
+                    wire::EnvelopeError::BadType { offset, .. } | wire::EnvelopeError::BadEnd { offset, .. } | wire::EnvelopeError::Trailing { offset, .. } => *offset,
+                    _ => 0,
+                };
+                if why.is_none() {
+                    why = Some(format!("{:?}", e));
+                }
+                if off == 0 || off >= end {
+                    break Vec::new();
+                }
+                end = off;
+            }
         }
     };
+    for f in &frames {
+        match wire::decode(f) {
+            Some(AMQPFrame::Heartbeat(_)) => {}
+            Some(fr) => per.entry(f.channel).or_default().push((f.offset, f.bytes.len(), fr)),
+            None => {
+                why = Some(format!("undecodable frame at {}", f.offset));
+                break;
+            }
+        }
+    }
+    (per, why)
+}
+
+pub fn publish_oracle(rep: &mut CaseReport, c2s: &[u8], hist: &History, frame_max: usize) {
+    let (per, corrupt) = decode_c2s_lenient(c2s);
+    if let Some(why) = corrupt {
+        // the stream stops being AMQP at some point (C01's concern as such): it is C02's concern too when a
+        // publish that was accepted is not completely on the wire before that point
+        let mut inner = CaseReport::default();
+        publish_oracle_on(&mut inner, &per, hist, frame_max, true);
+        match inner.violations.iter().find(|v| v.sig != "io-thread-cancel-ok-inside-publish") {
+            Some(v) => rep.violate("publish-stream-corrupt", "undecodable-before-publish-complete", format!("the client->server stream stops being decodable ({}) and before that point: {}", why, v.detail)),
+            None => rep.inconclusive = Some(format!("stream not decodable ({}): C01's concern", why)),
+        }
+        return;
+    }
+    publish_oracle_on(rep, &per, hist, frame_max, false)
+}
+
+fn publish_oracle_on(rep: &mut CaseReport, per: &BTreeMap<u16, Vec<(usize, usize, AMQPFrame)>>, hist: &History, frame_max: usize, stream_is_corrupt: bool) {
     // publishes per channel in issue order
     let mut pubs: BTreeMap<u16, Vec<&OpRec>> = BTreeMap::new();
     let mut threads: BTreeMap<usize, Vec<&OpRec>> = BTreeMap::new();
@@ -378,7 +424,7 @@ pub fn publish_oracle(rep: &mut CaseReport, c2s: &[u8], hist: &History, frame_ma
             if let Op::Publish { .. } = &o.op {
                 if o.result == OpResult::Unit {
                     pubs.entry(o.ch_id).or_default().push(o);
-                } else if o.result != OpResult::Skipped {
+                } else if o.result != OpResult::Skipped && !stream_is_corrupt {
                     rep.violate("publish-error", "error", format!("publish {} failed: {:?}", short_op(&o.op), o.result));
                     return;
                 }
@@ -424,8 +470,16 @@ pub fn publish_oracle(rep: &mut CaseReport, c2s: &[u8], hist: &History, frame_ma
                 rep.violate("publish-method", which, format!("channel {} publish {}: wire has {:?}, call had exchange={:?} rk={:?} mandatory={} immediate={}", ch, o.mark, p, trunc(exchange, 60), trunc(rk, 60), mandatory, immediate));
                 return;
             }
-            // header must be the very next frame on this channel
-            let h = match frames.get(i + 1) {
+            // header must be the very next frame on this channel.  One interruption is a recorded finding
+            // (known_findings.json): the I/O thread's own Basic.CancelOk, answering a server cancel, is
+            // written between the frames a publish hands over one by one; it is reported under its own
+            // signature and skipped, so that everything else about the publish is still checked
+            let mut hi = i + 1;
+            while let Some((_, _, AMQPFrame::Method(_, AMQPClass::Basic(B::CancelOk(c))))) = frames.get(hi) {
+                rep.violate("publish-contiguity", "io-thread-cancel-ok-inside-publish", format!("channel {} publish {}: the client's own Basic.CancelOk({}) (answer to a server cancel) sits between Basic.Publish and its content header", ch, o.mark, c.consumer_tag));
+                hi += 1;
+            }
+            let h = match frames.get(hi) {
                 Some((_, _, AMQPFrame::Header(_, class, h))) => {
                     if *class != 60 || h.class_id != 60 {
                         rep.violate("publish-header", "class", format!("channel {} publish {}: header class {}", ch, o.mark, class));
@@ -447,10 +501,14 @@ pub fn publish_oracle(rep: &mut CaseReport, c2s: &[u8], hist: &History, frame_ma
                 return;
             }
             let mut got = Vec::new();
-            let mut j = i + 2;
+            let mut j = hi + 1;
             let mut n_body = 0;
             while got.len() < body.len() {
                 match frames.get(j) {
+                    Some((_, _, AMQPFrame::Method(_, AMQPClass::Basic(B::CancelOk(c))))) => {
+                        rep.violate("publish-contiguity", "io-thread-cancel-ok-inside-publish", format!("channel {} publish {}: the client's own Basic.CancelOk({}) (answer to a server cancel) sits inside the content, after {} of {} body bytes", ch, o.mark, c.consumer_tag, got.len(), body.len()));
+                        j += 1;
+                    }
                     Some((_, flen, AMQPFrame::Body(_, b))) => {
                         if *flen > frame_max {
                             rep.violate("publish-frame-size", "too-long", format!("channel {} publish {} (body {} bytes): body frame of {} bytes exceeds frame_max {}", ch, o.mark, body.len(), flen, frame_max));
